@@ -247,9 +247,21 @@ func checkC06(tier string) {
 		mode string
 	}
 	lockMetas := map[int]lockMeta{}
-	for _, mode := range []string{"compiled", "interpreted"} {
+	for _, mode := range []string{"compiled", "interpreted", "compiled-ipv6", "interpreted-ipv6"} {
 		for k := 0; k <= 8; k++ {
 			var reqs []HReq
+			if strings.HasSuffix(mode, "ipv6") {
+				// two IPv6 clients that differ only in the last hextet
+				for i := 0; i < k; i++ {
+					reqs = append(reqs, HReq{M: "GET", P: "/p0", H: map[string][]string{"Authorization": {"Bearer wrong"}}, Remote: "[2001:db8::7]:1000"})
+				}
+				reqs = append(reqs, HReq{M: "GET", P: "/p0", H: map[string][]string{"Authorization": {"Bearer s3cr3t"}}, Remote: "[2001:db8::7]:2000"})
+				reqs = append(reqs, HReq{M: "GET", P: "/p0", H: map[string][]string{"Authorization": {"Bearer s3cr3t"}}, Remote: "[2001:db8::8]:2000"})
+				id := len(jobs)
+				lockMetas[id] = lockMeta{k, mode}
+				jobs = append(jobs, HJob{ID: id, Src: c06Source(false), Interp: strings.HasPrefix(mode, "interpreted"), Env: map[string]string{"GLYPH_JWT_SECRET": "s3cr3t", "GLYPH_API_KEYS": "\x00unset"}, Reqs: reqs})
+				continue
+			}
 			for i := 0; i < k; i++ {
 				reqs = append(reqs, HReq{M: "GET", P: "/p0", H: map[string][]string{"Authorization": {"Bearer wrong"}, "X-Forwarded-For": {"172.16.0.2"}, "X-Real-IP": {"172.16.0.2"}}, Remote: "172.16.0.1:1000"})
 			}
